@@ -108,6 +108,7 @@ int      sim_rand_chance(int stream, double p);
 
 // --------------------------------------------------------- trace / stats ---
 void sim_event(const char *fmt, ...) __attribute__((format(printf, 1, 2)));
+void sim_debug(const char *fmt, ...) __attribute__((format(printf, 1, 2)));
 void sim_hist(uint64_t a, uint64_t b); // fold into history hash
 void sim_probe(const char *name);      // count a named rare condition
 void sim_fault_fired(const char *kind, int in_flight);
